@@ -25,6 +25,12 @@ func (cit *CallIterator) M__iter__() (Object, error) {
 
 // Get next one from the iteration
 func (cit *CallIterator) M__next__() (Object, error) {
+	// Once the sentinel has been seen the iterator stays exhausted
+	// and the callable isn't called again
+	if cit.callable == nil {
+		return nil, StopIteration
+	}
+
 	value, err := Call(cit.callable, nil, nil)
 
 	if err != nil {
@@ -32,6 +38,7 @@ func (cit *CallIterator) M__next__() (Object, error) {
 	}
 
 	if value == cit.sentinel {
+		cit.callable = nil
 		return nil, StopIteration
 	}
 
